@@ -113,6 +113,12 @@ def rejected_calls(w, rng):
         others = [a for a in w.alive('A', block=m.block) if pos is None or a.shape != pos.shape]
         for a in (others[:3] + w.alive('A', block=m.block)[:2]):
             out.append('single positions %s %s' % (m.slot, rng.choice(['handle ' + a.slot, 'idof ' + a.slot, 'id ' + S(a.name)])))
+    # links BY ENTITY to an entity of another block that has the name of an entity of this block: refused like any foreign entity
+    for h in w.alive(['T', 'M', 'G'])[:6]:
+        for k in (['A'] if h.kind != 'G' else ['A', 'D', 'T', 'M']):
+            local = {e.name for e in w.alive(k, block=h.block)}
+            for e in [x for x in w.alive(k) if x.block != h.block and x.name in local][:2]:
+                out.append('link %s %s handle %s' % ('ref' if h.kind != 'G' else REL_OF[k], h.slot, e.slot))
     for e in w.alive(['B', 'A', 'T', 'M', 'O', 'G'])[:4]:
         out.append('single metadata %s id %s' % (e.slot, S('00000000-0000-0000-0000-000000000000')))
         out.append('single metadata %s id %s' % (e.slot, S('')))
@@ -194,6 +200,7 @@ def history(rng, tier):
     if not w.alive('S'): w.mk('S', None)
     for s_ in w.alive('S')[:2]:
         if not w.alive('P', parent=s_.slot): w.mk('P', s_)
+    if rng.random() < 0.5: C04.twins(w, rng)       # entities of different parents that share a name
     C04.dense_links(w, rng)
     # multi-tags with extents (an array of the shape of the positions): a later change of the positions has something to disagree with
     for m in w.alive('M')[:3]:
